@@ -1,5 +1,6 @@
 import Tau.Properties.C06
 import Tau.Mapping
+import Tau.Proofs.Batch
 /-
   C08 — List quantifiers count the members the author wrote.
 
@@ -89,5 +90,281 @@ theorem batched_all_is_per_element :
     let d : Doc := .obj [(['f'], .arr [.str ['a', 'b'], .str ['c', 'd']])]
     solveClosed E0 d e = .f ∧ solveClosed E0 d m1 = .t ∧ solveClosed E0 d m2 = .t := by
   decide
+
+end Tau.C08
+
+namespace Tau.C08
+open Tau
+
+/-! ### When nothing is batched, the quantifiers count exactly the members as written -/
+
+theorem litBlock_unbatched (L : List Ident) (f : Str) (c : Bool)
+    (hci : ∀ i ∈ L, i.ci = false) (hk : ∀ i ∈ L, ∃ mt, matchTypeOf i.pat = some mt)
+    (hm : (litBlock (L.filterMap (fun i => matchTypeOf i.pat)) f c).2 = false) :
+    (litBlock (L.filterMap (fun i => matchTypeOf i.pat)) f c).1 = L.filterMap (unbatchOne f c) := by
+  have hmt : ∀ i ∈ L, ∃ mt, matchTypeOf i.pat = some mt ∧
+      unbatchOne f c i = some (Expr.search (searchOfMatchType mt) f c) := by
+    intro i hi
+    obtain ⟨mt, h⟩ := hk i hi
+    exact ⟨mt, h, by simp [unbatchOne, hci i hi, searchOfPattern_lit_false _ _ h]⟩
+  have hR : L.filterMap (unbatchOne f c) =
+      (L.filterMap (fun i => matchTypeOf i.pat)).map (fun mt => Expr.search (searchOfMatchType mt) f c) := by
+    clear hci hk hm
+    induction L with
+    | nil => rfl
+    | cons x xs ih =>
+      obtain ⟨mt, h1, h2⟩ := hmt x (by simp)
+      rw [List.filterMap_cons, h2, List.filterMap_cons, h1, List.map_cons,
+        ih (fun i hi => hmt i (by simp [hi]))]
+  rw [hR]
+  generalize L.filterMap (fun i => matchTypeOf i.pat) = ctx at hm ⊢
+  match ctx, hm with
+  | [], _ => rfl
+  | [m], _ => rfl
+  | _ :: _ :: _, hm => simp [litBlock] at hm
+
+theorem ilitBlock_unbatched (L : List Ident) (f : Str) (c : Bool)
+    (hk : ∀ i ∈ L, ∃ mt, matchTypeOf i.pat = some mt)
+    (hm : (ilitBlock (L.filterMap (fun i => matchTypeOf i.pat)) f c).2 = false) :
+    L = [] ∧ (ilitBlock (L.filterMap (fun i => matchTypeOf i.pat)) f c).1 = [] := by
+  cases L with
+  | nil => exact ⟨rfl, rfl⟩
+  | cons x xs =>
+    obtain ⟨mt, h⟩ := hk x (by simp)
+    simp [ilitBlock, List.filterMap_cons, h] at hm
+
+theorem rxBlock_unbatched (L : List Ident) (ci : Bool) (f : Str) (c : Bool)
+    (hci : ∀ i ∈ L, i.ci = ci) (hk : ∀ i ∈ L, ∃ p, i.pat = .regex p)
+    (hm : (rxBlock (L.filterMap regexText) ci f c).2 = false) :
+    (rxBlock (L.filterMap regexText) ci f c).1 = L.filterMap (unbatchOne f c) := by
+  have hmt : ∀ i ∈ L, ∃ p, regexText i = some p ∧
+      unbatchOne f c i = some (Expr.search (.regex p ci) f c) := by
+    intro i hi
+    obtain ⟨p, h⟩ := hk i hi
+    refine ⟨p, ?_, ?_⟩
+    · obtain ⟨ci', pat⟩ := i; simp only at h; subst h; rfl
+    · simp [unbatchOne, hci i hi, h, searchOfPattern]
+  have hR : L.filterMap (unbatchOne f c) =
+      (L.filterMap regexText).map (fun p => Expr.search (.regex p ci) f c) := by
+    clear hci hk hm
+    induction L with
+    | nil => rfl
+    | cons x xs ih =>
+      obtain ⟨p, h1, h2⟩ := hmt x (by simp)
+      rw [List.filterMap_cons, h2, List.filterMap_cons, h1, List.map_cons,
+        ih (fun i hi => hmt i (by simp [hi]))]
+  rw [hR]
+  generalize L.filterMap regexText = rs at hm ⊢
+  match rs, hm with
+  | [], _ => rfl
+  | [r], _ => rfl
+  | _ :: _ :: _, hm => simp [rxBlock] at hm
+
+
+/-- With no batch of two or more, the group is the written members, up to order. -/
+theorem unbatched_perm (st : SeqSt) (hwf : st.WF) (f : Str) (hm : (batchMembers st f).2 = false) :
+    (batchMembers st f).1.Perm (unbatched st f) := by
+  let ex0 := st.exact.filter isEmptyExact
+  let ex1 := st.exact.filter isNonEmptyExact
+  let all := st.startsWith ++ st.contains ++ st.endsWith ++ ex1
+  let L1 := all.filter (fun i => !i.ci)
+  let L2 := all.filter (fun i => i.ci)
+  let R1 := st.regex.filter (fun i => !i.ci)
+  let R2 := st.regex.filter (fun i => i.ci)
+  have hb : (batchMembers st f).1 =
+      ex0.map (fun _ => Expr.search (.exact []) f st.cast)
+        ++ (litBlock (L1.filterMap (fun i => matchTypeOf i.pat)) f st.cast).1
+        ++ (ilitBlock (L2.filterMap (fun i => matchTypeOf i.pat)) f st.cast).1
+        ++ (rxBlock (R1.filterMap regexText) false f st.cast).1
+        ++ (rxBlock (R2.filterMap regexText) true f st.cast).1 ++ st.rest := rfl
+  have hflag : (batchMembers st f).2 =
+      ((litBlock (L1.filterMap (fun i => matchTypeOf i.pat)) f st.cast).2 ||
+       (ilitBlock (L2.filterMap (fun i => matchTypeOf i.pat)) f st.cast).2 ||
+       (rxBlock (R1.filterMap regexText) false f st.cast).2 ||
+       (rxBlock (R2.filterMap regexText) true f st.cast).2) := rfl
+  rw [hflag] at hm
+  simp only [Bool.or_eq_false_iff] at hm
+  obtain ⟨⟨⟨hm1, hm2⟩, hm3⟩, hm4⟩ := hm
+  have hall : ∀ i ∈ all, ∃ mt, matchTypeOf i.pat = some mt := by
+    intro i hi
+    simp only [all, ex1, List.mem_append, List.mem_filter] at hi
+    rcases hi with ((hi | hi) | hi) | ⟨hi, _⟩
+    · obtain ⟨s, h⟩ := hwf.startsWith i hi; exact ⟨_, by rw [h]; rfl⟩
+    · obtain ⟨s, h⟩ := hwf.contains i hi; exact ⟨_, by rw [h]; rfl⟩
+    · obtain ⟨s, h⟩ := hwf.endsWith i hi; exact ⟨_, by rw [h]; rfl⟩
+    · obtain ⟨s, h⟩ := hwf.exact i hi; exact ⟨_, by rw [h]; rfl⟩
+  have h0 : ex0.map (fun _ => Expr.search (.exact []) f st.cast) = ex0.filterMap (unbatchOne f st.cast) := by
+    apply emptyExact_V
+    intro i hi
+    simp only [ex0, List.mem_filter] at hi
+    obtain ⟨s, h⟩ := hwf.exact i hi.1
+    have := hi.2
+    simp only [isEmptyExact, h] at this
+    rw [h]; congr; exact List.isEmpty_iff.mp this
+  have h1 := litBlock_unbatched L1 f st.cast
+    (fun i hi => by simpa using (List.mem_filter.mp hi).2)
+    (fun i hi => hall i (List.mem_filter.mp hi).1) hm1
+  obtain ⟨hL2, h2⟩ := ilitBlock_unbatched L2 f st.cast (fun i hi => hall i (List.mem_filter.mp hi).1) hm2
+  have h3 := rxBlock_unbatched R1 false f st.cast
+    (fun i hi => by simpa using (List.mem_filter.mp hi).2)
+    (fun i hi => hwf.regex i (List.mem_filter.mp hi).1) hm3
+  have h4 := rxBlock_unbatched R2 true f st.cast
+    (fun i hi => by simpa using (List.mem_filter.mp hi).2)
+    (fun i hi => hwf.regex i (List.mem_filter.mp hi).1) hm4
+  rw [hb, h0, h1, h2, h3, h4]
+  have e0 : ex0.filterMap (unbatchOne f st.cast) ++ L1.filterMap (unbatchOne f st.cast) ++ []
+      ++ R1.filterMap (unbatchOne f st.cast) ++ R2.filterMap (unbatchOne f st.cast) ++ st.rest =
+      (ex0 ++ L1 ++ L2 ++ R1 ++ R2).filterMap (unbatchOne f st.cast) ++ st.rest := by
+    rw [hL2]; simp only [List.filterMap_append, List.append_nil, List.filterMap_nil]
+  rw [e0]
+  unfold unbatched
+  apply List.Perm.append_right
+  apply List.Perm.filterMap
+  have pL : (L1 ++ L2).Perm all :=
+    (List.perm_append_comm).trans (List.filter_append_perm (fun i => i.ci) all)
+  have pR : (R1 ++ R2).Perm st.regex :=
+    (List.perm_append_comm).trans (List.filter_append_perm (fun i => i.ci) st.regex)
+  have hex1 : ex1 = st.exact.filter (fun i => !isEmptyExact i) := by
+    apply List.filter_congr
+    intro i hi
+    obtain ⟨s, h⟩ := hwf.exact i hi
+    simp [isNonEmptyExact, isEmptyExact, h]
+  have pE : (ex0 ++ ex1).Perm st.exact := by
+    rw [hex1]; exact List.filter_append_perm isEmptyExact st.exact
+  have e1 : ex0 ++ L1 ++ L2 ++ R1 ++ R2 = ex0 ++ ((L1 ++ L2) ++ (R1 ++ R2)) := by
+    simp only [List.append_assoc]
+  rw [e1]
+  refine ((pL.append pR).append_left ex0).trans ?_
+  have e2 : ex0 ++ (all ++ st.regex) = (ex0 ++ all) ++ st.regex := by simp only [List.append_assoc]
+  rw [e2]
+  apply List.Perm.append_right
+  have e3 : all ++ ex0 = (st.startsWith ++ st.contains ++ st.endsWith) ++ (ex1 ++ ex0) := by
+    simp only [all, List.append_assoc]
+  exact (List.perm_append_comm.trans (e3 ▸ List.Perm.refl _)).trans
+    (((List.perm_append_comm).trans pE).append_left _)
+
+/-- What the member loop collected is, up to order, the members taken one at a time. -/
+theorem members_perm (E : RegexEngine) (ic : Bool) (f : Str) (misc : Option ModSym) (lhs : Expr) :
+    ∀ (vs : List Yaml) (Δ : SeqSt),
+      parseMembers E ic f misc lhs vs { cast := (misc == some .str) } = .ok Δ →
+      (unbatched Δ f).Perm (vs.flatMap (memberAlone E ic f misc lhs))
+  | [], Δ, h => by
+    simp only [parseMembers] at h; cases h
+    exact List.Perm.refl _
+  | v :: vs, Δ, h => by
+    rw [parseMembers_step E ic f misc lhs v vs _ rfl] at h
+    simp only at h
+    cases hδ : memberDelta E ic f misc lhs (misc == some .str) v with
+    | error e => rw [hδ] at h; cases h
+    | ok δ =>
+      rw [hδ] at h
+      simp only at h
+      have hδc := memberDelta_cast E ic f misc lhs _ v δ hδ
+      rw [parseMembers_hom E ic f misc lhs vs _ rfl] at h
+      have e2 : ((({ cast := (misc == some ModSym.str) } : SeqSt).add δ)).cast = (misc == some .str) := rfl
+      rw [e2] at h
+      cases hΔ' : parseMembers E ic f misc lhs vs { cast := (misc == some ModSym.str) } with
+      | error e => rw [hΔ'] at h; cases h
+      | ok Δ' =>
+        rw [hΔ'] at h
+        simp only [exMap] at h
+        cases h
+        have ih := members_perm E ic f misc lhs vs Δ' hΔ'
+        have hΔ'c : Δ'.cast = (misc == some .str) := parseMembers_cast E ic f misc lhs vs _ Δ' rfl hΔ'
+        have hmem : memberAlone E ic f misc lhs v = unbatched δ f := by simp only [memberAlone, hδ]
+        have p1 := unbatched_add (({ cast := (misc == some ModSym.str) } : SeqSt).add δ) Δ' f hΔ'c
+        have p2 := unbatched_add ({ cast := (misc == some ModSym.str) } : SeqSt) δ f hδc
+        have e0 : unbatched ({ cast := (misc == some ModSym.str) } : SeqSt) f = [] := rfl
+        rw [e0, List.nil_append] at p2
+        rw [List.flatMap_cons, hmem]
+        exact (p1.trans (p2.append_right _)).trans (ih.append_left _)
+
+
+theorem ofN_single (n : Nat) (r : Tri) : Tri.ofN n [r] = ofSingle n r := by
+  unfold Tri.ofN ofSingle Tri.count
+  by_cases h0 : n = 0
+  · subst h0; cases r <;> rfl
+  · simp only [h0, if_false]
+    cases r
+    · by_cases h1 : n > 1
+      · have : ¬ n ≤ 1 := by omega
+        simp [h1, this]
+      · have : n ≤ 1 := by omega
+        simp [h1, this]
+    · simp; omega
+    · simp; omega
+
+/-- The table of a quantifier. -/
+def quantVal (k : MatchK) (xs : List Tri) : Tri :=
+  match k with
+  | .all => Tri.and xs
+  | .of n => Tri.ofN n xs
+
+/-- A quantified key list with at least two nodes in its group: `all(k)` is the `and`, `of(k, n)`
+    the count over `(batchMembers st f).1`. -/
+theorem key_quantifier_value (E : RegexEngine) (ic : Bool) (f : Str) (k : MatchK) (s : List Yaml) (x : Expr)
+    (h : parseVal E ic (.match k (.field f)) f none (.seq s) = .ok x) :
+    ∃ st, parseMembers E ic f none (.field f) s { cast := false } = .ok st ∧
+      (2 ≤ (batchMembers st f).1.length →
+        ∀ (K : IdentK) (d : Doc), solveG E K d x = quantVal k ((batchMembers st f).1.map (solveG E K d))) := by
+  simp only [parseVal] at h
+  split at h
+  · cases h
+  · rename_i st hst
+    refine ⟨st, hst, fun hlen K d => ?_⟩
+    unfold shapeSeq at h
+    split at h
+    · cases h
+    · split at h
+      · cases h
+      · rename_i g gs hg
+        cases h
+        have hw : ∀ y, wrapNot none y = y := fun y => by simp [wrapNot]
+        rw [hw, hg]
+        have hgs : gs.isEmpty = false := by
+          rw [hg] at hlen
+          cases gs with
+          | nil => simp at hlen
+          | cons _ _ => rfl
+        cases k with
+        | all =>
+          simp only [shapeGroup, hgs, Bool.and_false, Bool.false_eq_true, if_false, quantVal]
+          exact C06.solve_all_group E K d .or _
+        | of n =>
+          simp only [shapeGroup, hgs, Bool.false_eq_true, if_false, quantVal]
+          exact C06.solve_of_group E K d n .or _
+
+/-- **Nothing batched ⇒ the quantifiers count the members as written.** If the list under
+    `all(k)` / `of(k, n)` holds no two members that the parser batches together (no two
+    case-sensitive literals, no case-insensitive literal, no two regexes of one case flag) then
+    `of(k, n)` is exactly the count over the members taken one at a time, and `all(k)` is true
+    exactly when every member is. -/
+theorem unbatched_key_quantifiers (E : RegexEngine) (ic : Bool) (f : Str) (k : MatchK) (s : List Yaml) (x : Expr)
+    (h : parseVal E ic (.match k (.field f)) f none (.seq s) = .ok x) :
+    ∃ st, parseMembers E ic f none (.field f) s { cast := false } = .ok st ∧
+      ((batchMembers st f).2 = false → 2 ≤ (batchMembers st f).1.length →
+        ∀ (K : IdentK) (d : Doc),
+          let members := (s.flatMap (memberAlone E ic f none (.field f))).map (solveG E K d)
+          (solveG E K d x = .t ↔ quantVal k members = .t) ∧
+          (∀ n, k = .of n → solveG E K d x = Tri.ofN n members)) := by
+  obtain ⟨st, hst, hval⟩ := key_quantifier_value E ic f k s x h
+  refine ⟨st, hst, fun hm hlen K d => ?_⟩
+  have hwf : st.WF := parseMembers_wf E ic f none (.field f) s _ st hst (wf_empty _)
+  have hperm : (batchMembers st f).1.Perm (s.flatMap (memberAlone E ic f none (.field f))) :=
+    (unbatched_perm st hwf f hm).trans (members_perm E ic f none (.field f) s st hst)
+  have hv := hval hlen K d
+  simp only
+  rw [hv]
+  refine ⟨?_, fun n hk => ?_⟩
+  · cases k with
+    | all =>
+      simp only [quantVal]
+      exact Tri.and_t_perm (hperm.map _)
+    | of n =>
+      simp only [quantVal]
+      rw [Tri.ofN_perm n (hperm.map _)]
+  · subst hk
+    simp only [quantVal]
+    exact Tri.ofN_perm n (hperm.map _)
 
 end Tau.C08
